@@ -87,7 +87,7 @@ class Gen:
         ctrl = sorted(view.controlled_hosts, key=str)
         if not ctrl:
             return None
-        kind = rng.choice(["fs1", "fd1", "fd2", "ex1", "ex2", "ex3", "ex3", "ex3", "xf1", "xf2", "xf3", "bl1", "bl2", "bl3", "src"])
+        kind = rng.choice(["fs1", "fd1", "fd2", "ex1", "ex2", "ex3", "ex3", "ex3", "ex4", "ex4", "xf1", "xf2", "xf3", "xf4", "bl1", "bl2", "bl3", "src"])
         s = rng.choice(ctrl)
         reach = [d for d in self.ips if self._allowed(s, d)]
         unreach = [d for d in self.ips if not self._allowed(s, d)]
@@ -133,6 +133,30 @@ class Gen:
                     pref = [x for x in c if x[1] and x[3]] or [x for x in c if x[1]] or c
                     t, both, missing, _ = rng.choice(pref)
                     return Action(ActionType.ExploitService, {"source_host": s, "target_host": t, "target_service": rng.choice(both or missing)})
+        if kind == "ex4":      # a near miss: a record that differs in ONE field from a service that is on the target and was discovered there
+            c = []
+            for t in reach:
+                on_t = set(self.w._services.get(self.w._ip_to_hostname.get(t), []))
+                both = sorted(on_t & set(view.known_services.get(t, ())), key=repr)
+                if both:
+                    c.append((t, both))
+            if c:
+                t, both = rng.choice(c)
+                sv = rng.choice(both)
+                f = rng.choice(["is_local", "is_local", "version", "name", "type"])
+                near = {"is_local": Service(sv.name, sv.type, sv.version, not sv.is_local), "version": Service(sv.name, sv.type, sv.version + ".0", sv.is_local),
+                        "name": Service(sv.name.upper() if sv.name.upper() != sv.name else sv.name + "d", sv.type, sv.version, sv.is_local),
+                        "type": Service(sv.name, "active" if sv.type != "active" else "passive", sv.version, sv.is_local)}[f]
+                return Action(ActionType.ExploitService, {"source_host": s, "target_host": t, "target_service": near})
+        if kind == "xf4":      # a near miss of a datapoint the agent knows at the source
+            kd = view.known_data.get(s)
+            c = [t for t in ctrl if self._allowed(s, t)]
+            if kd and c:
+                d0 = rng.choice(sorted(kd, key=repr))
+                f = rng.choice(["owner", "id", "size", "type"])
+                near = {"owner": Data(d0.owner + "x", d0.id, d0.size, d0.type), "id": Data(d0.owner, d0.id + "x", d0.size, d0.type),
+                        "size": Data(d0.owner, d0.id, d0.size + 1, d0.type), "type": Data(d0.owner, d0.id, d0.size, d0.type + "x")}[f]
+                return Action(ActionType.ExfiltrateData, {"source_host": s, "target_host": rng.choice(c), "data": near})
         if kind in ("xf1", "xf2", "xf3"):
             kd = view.known_data.get(s)
             d = rng.choice(sorted(kd, key=repr)) if kd else None
@@ -272,6 +296,8 @@ class Stats:
         self.cross_agent = set()
         self.snap_checks = 0
         self.reset_nontrivial = 0
+        self.directed_interference = 0
+        self.post_reset_probes = 0
 
 
 class WorldSession:
@@ -410,16 +436,35 @@ def run_walks(drv, rng, stats: Stats, on_fail, worlds, walks_per_world, steps, r
                 history[ag].append((copy.deepcopy(v), v))
             # probe script for C08: recorded in the first episode, replayed after reset
             script = []
+            readonly = []        # (view the agent held, action) of the read-only actions of the episode
             probe_next = []      # agents whose current view object was changed behind their back: let them play a refused action next
+            forced = []          # directed steps: (agent index, action), executed before anything else
+            directed = 0
             for si in range(steps):
                 ag = rng.randrange(nag)
                 act = sess.gen.action(views[ag], singling=0.3)
-                if probe_next:
+                if forced:
+                    ag, act = forced.pop(0)
+                    if act is None:
+                        src = sorted(views[ag].controlled_hosts, key=str)
+                        act = Action(ActionType.ScanNetwork, {"source_host": rng.choice(src), "target_network": sess.gen.net(views[ag])}) if src and rng.random() < 0.5 else sess.gen.action(views[ag])
+                elif probe_next:
                     ag = probe_next.pop(0)
                     outsider = [x for x in sess.gen.ips if x not in views[ag].controlled_hosts] or [IP("10.99.99.99")]
                     act = Action(ActionType.FindServices, {"source_host": rng.choice(outsider), "target_host": sess.gen.any_ip(views[ag])})
+                tampered = views[ag] != last_returned[ag]       # the object the agent holds was changed behind its back
                 rec = sess.step(views[ag], act)
                 stats.steps += 1
+                if tampered and rec["pre"] and rec.get("new") is not None:
+                    # C03: the result must be the documented effect applied to the view the agent was HANDED
+                    sess.drv.ask({"op": "world", "world": rec["world"]})
+                    m2 = sess.drv.ask({"op": "step", "view": C.view2j(last_returned[ag]), "action": rec["action"]})
+                    sess.sync()
+                    if not m2.get("raised") and C.canon_view(m2["view"]) != C.canon_view(C.view2j(rec["new"])):
+                        on_fail("C03", "effect-beyond-documented:" + rec["action"]["t"],
+                                f"{rec['action']['t']} returned more than its documented effect on the view the agent was last handed "
+                                f"(the view it holds was changed by another agent's action) in {sess.label}",
+                                replay_of(sess, rec, {"previous_view": C.view2j(last_returned[ag])}))
                 t = rec["action"]["t"]
                 stats.by_type[t] = stats.by_type.get(t, 0) + 1
                 gkey = (t, tuple(rec["guards"]))
@@ -492,8 +537,39 @@ def run_walks(drv, rng, stats: Stats, on_fail, worlds, walks_per_world, steps, r
                     on_fail("C11", "alias-view:" + t, f"{t} returned a view that shares a container object with a view returned earlier", replay_of(sess, rec))
                 history[ag].append((copy.deepcopy(new), new))
                 last_returned[ag] = copy.deepcopy(new)
+                if act.type in (ActionType.ScanNetwork, ActionType.FindServices, ActionType.FindData) and len(readonly) < 40:
+                    readonly.append((copy.deepcopy(views[ag]), act))
                 views[ag] = new
                 script.append((ag, act))
+                # directed interference: right after an agent searched a host, ANOTHER agent (which controls that host and
+                # a host holding data) copies data there / blocks there; then the first agent plays a refused action and
+                # must be handed exactly the view it was handed before
+                if t == "findData" and rec["pre"] and directed < 3 and rng.random() < 0.4:
+                    H = act.parameters["target_host"]
+                    cand = []
+                    for ip, hn in sess.w._ip_to_hostname.items():
+                        if ip != H:
+                            for dd in sorted(sess.w._data.get(hn, ()), key=str):
+                                cand.append((ip, dd))
+                    if cand:
+                        S, dd = rng.choice(cand)
+                        vb = GameState(controlled_hosts={H, S}, known_hosts={H, S}, known_services={}, known_data={S: {dd}},
+                                       known_networks=set(), known_blocks={})
+                        views.append(vb)
+                        history.append([(copy.deepcopy(vb), vb)])
+                        last_returned.append(copy.deepcopy(vb))
+                        nag += 1
+                        directed += 1
+                        stats.directed_interference = getattr(stats, "directed_interference", 0) + 1
+                        if rng.random() < 0.75:
+                            forced.append((nag - 1, Action(ActionType.ExfiltrateData, {"source_host": S, "target_host": H, "data": dd})))
+                        else:
+                            forced.append((nag - 1, Action(ActionType.BlockIP, {"source_host": H, "target_host": H, "blocked_host": S})))
+                        outsider = [x for x in sess.gen.ips if x not in new.controlled_hosts] or [IP("10.99.99.99")]
+                        if rng.random() < 0.5:
+                            forced.append((ag, Action(ActionType.FindServices, {"source_host": rng.choice(outsider), "target_host": H})))
+                        else:
+                            forced.append((ag, None))      # an ordinary action of the victim, drawn when its turn comes
                 # every view returned earlier must still have its value
                 for ag2, hs in enumerate(history):
                     for (snap, vv) in hs:
@@ -517,6 +593,16 @@ def run_walks(drv, rng, stats: Stats, on_fail, worlds, walks_per_world, steps, r
                     on_fail("C08", "reset:" + ",".join(sorted(set(r["diff_model"] + r["diff_initial"]))),
                             f"after reset in {sess.label} the world differs from its initial condition in {sorted(set(r['diff_model'] + r['diff_initial']))}",
                             {"kind": "reset", "scenario": sess.label, "script": [(a, C.action2j(x)) for a, x in script], **{k: r[k] for k in ('real', 'model', 'initial')}})
+                # the world after a reset behaves as a fresh one: every read-only action of the episode, asked again from the
+                # view the agent held then, must give what the model gives on the fresh tables (nothing remembered)
+                for (vb, act) in readonly:
+                    rec = sess.step(vb, act)
+                    stats.post_reset_probes = getattr(stats, "post_reset_probes", 0) + 1
+                    if not rec["agree"]:
+                        on_fail("C08", "remembered-after-reset:" + rec["action"]["t"],
+                                f"after a reset in {sess.label}, {rec['action']['t']} does not give what it gives on the initial world: differs in {rec['diff']}",
+                                replay_of(sess, rec, {"script": [(a, C.action2j(x)) for a, x in script]}))
+                        break
                 # replay the same script on fresh views: observations must equal those of the first episode
                 if script and rng.random() < 0.6:
                     first_obs = [h[:] for h in history]
